@@ -81,6 +81,44 @@ def ibound(name, l, n):
     return n - 1, "n nodes interpolate polynomials up to degree n-1"
 
 
+def quadsize_rule(chk, db, rule_id):
+    """the Gauss-Legendre rule that integrates the Newton basis of a Sequence grid is sized from the maximum level over all directions"""
+    from tsg.typestate import must_pass_before
+    chk.rule(rule_id, "GridSequence::cacheBasisIntegrals (behind getQuadratureWeights, integrate and integrateHierarchicalFunctions of Sequence grids): the number of Gauss-Legendre points "
+                      "is derived from a variable that is reduced over all entries of max_levels, and it is derived after that reduction has run (every path to the definition passes the "
+                      "reducing loop): sized from one direction only, the basis functions of a more refined direction are integrated with too few points")
+    n = 0
+    for f in db.fns("TasGrid::GridSequence::cacheBasisIntegrals", required=False):
+        gl = [c for c in f.calls() if short(callee(c) or "") == "getGaussLegendre"]
+        if not gl:
+            raise AnalysisBroken("cacheBasisIntegrals no longer calls getGaussLegendre")
+        chk.saw(f)
+        for c in gl:
+            nv = strip(call_args(c)[0])
+            nd = f.locals().get(nv.get("did")) if nv is not None and nv.get("k") == "DeclRefExpr" else None
+            if nd is None or not nd.get("c"):
+                raise AnalysisBroken("the number of Gauss-Legendre points is not a local with an initialiser")
+            reads = {q.get("did") for q in walk(nd["c"][0]) if q.get("k") == "DeclRefExpr" and q.get("did") in f.locals()}
+            # loops over the member max_levels that assign one of these variables
+            red = []
+            for lp in f.walk():
+                if lp.get("k") == "CXXForRangeStmt" and lp.get("range") is not None and short((strip(lp["range"]) or {}).get("field") or "") == "max_levels":
+                    if any(q.get("k") == "BinaryOperator" and q.get("op") == "=" and (strip(q["c"][0]) or {}).get("did") in reads for q in walk(lp.get("body") or {})):
+                        red.append(lp)
+                elif lp.get("k") == "ForStmt" and any(short(z.get("field") or "") == "max_levels" for z in walk(lp)) and \
+                        any(q.get("k") == "BinaryOperator" and q.get("op") == "=" and (strip(q["c"][0]) or {}).get("did") in reads for q in walk(lp.get("body") or {})):
+                    red.append(lp)
+            n += 1
+            ok = False
+            detail = "the size is not derived from a variable reduced over max_levels"
+            if red:
+                inside = {q.get("id") for lp in red for q in walk(lp)}
+                ok = bool(must_pass_before(f, nd, lambda q: q.get("id") in inside)) and nd.get("id") not in inside
+                detail = "" if ok else "the number of points is fixed before the reduction over max_levels has run: it reflects the first direction only"
+            chk.ob(rule_id, f.key, "Gauss-Legendre size `%s` of the basis integrals" % txt(nd["c"][0])[:40], ok, f.loc(nd), detail)
+    return n
+
+
 def params_rule(chk, db, rule_id):
     """every rebuild of the one dimensional cache inside GridGlobal uses the grid's own rule, alpha, beta (shared by C02 and C03)"""
     chk.rule(rule_id, "every construction of the one dimensional node/weight cache inside a grid class that stores rule parameters passes that grid's own rule, alpha and beta "
@@ -254,6 +292,8 @@ def run(chk, prop="C02"):
         chk.floor("C02-D4.area", na, 4, "basis-integral obligations shared with C04")
         # ---- the parameters of the rule reach every rebuild of the one dimensional cache
         params_rule(chk, db, "C02-D5.params")
+        nqs = quadsize_rule(chk, db, "C02-D10.quadsize")
+        chk.floor("C02-D10.quadsize", nqs, 1, "quadrature sizes of the Sequence basis integrals")
         chk.note("C02", "SparseGrids/tsgCoreOneDimensional.cpp", "exactness of the computed nodes/weights themselves (eigen-solves, closed forms, tensor weights) is numerical and not decided")
         return ("Static rule discharge: the three exactness tables are partially evaluated (no loops) for every global rule and levels 0..%d and the declared quadrature exactness is compared with "
                 "theorems that bound the degree of exactness by the number of nodes (Gauss 2n-1, Gauss-Patterson (3n+1)/2, interpolatory n-1 plus one by symmetry for odd n); "
